@@ -277,9 +277,14 @@ def run_history(handlers, reqs, directory, upto=None):
     """serve `reqs` ([key, path, query, valid]) one after the other from handlers ([key, backend, spec]) that are all
     built first and live in this process together, on freshly imported pydap modules; returns the responses"""
     G.fresh_pydap()
-    apps = {key: G.build_app(backend, spec, directory) for key, backend, spec in handlers}
+    # a handler whose key ends in "'" replaces the handler of the same name while the process runs (a CSV file rewritten
+    # with other column types, a dataset swapped): it is built when it is first asked, the one it replaces is not asked again
+    apps = {key: G.build_app(backend, spec, directory) for key, backend, spec in handlers if not key.endswith("'")}
+    late = {key: (backend, spec) for key, backend, spec in handlers if key.endswith("'")}
     out = []
     for key, path, q, _valid in reqs[: (upto + 1) if upto is not None else None]:
+        if key not in apps:
+            apps[key] = G.build_app(*late[key], directory)
         out.append(G.run_request(apps[key], path, q))
     return out
 
@@ -324,8 +329,27 @@ def explore_histories(ctx, tier, search=False):
             by_key = {h[0]: h for h in handlers}
             reqs = []
             last = None
-            for _ in range(rng.randint(8, 16)):
-                key = rng.choice([h[0] for h in handlers if h[0] != last] or [last]) if rng.random() < 0.85 else rng.choice(handlers)[0]
+            n_req = rng.randint(8, 16)
+            # in every third history one dataset is replaced while the process runs: same key, same file name / dataset
+            # name, other column types and records (for CSV: the file is rewritten and opened again, as DapServer does)
+            switch = None
+            if hi % 3 == 2:
+                old_key, old_backend, old_spec = rng.choice(handlers)
+                new_spec = G.gen_csv_spec(rng, old_spec["name"].split("%2E")[0]) if old_backend == "csv" else None
+                if new_spec is None:
+                    for _try in range(50):
+                        new_spec = G.gen_dataset(rng)
+                        if any(v["k"] == "sq" and v["rows"] for v in new_spec["vars"]):
+                            break
+                    new_spec["name"] = old_spec["name"]
+                handlers.append((old_key + "'", old_backend if old_backend == "csv" else rng.choice(["mem", "lazy", "ranged"]), new_spec))
+                by_key[old_key + "'"] = handlers[-1]
+                switch = (rng.randint(2, n_req - 2), old_key)
+            for ri in range(n_req):
+                live = [h[0] for h in handlers if not h[0].endswith("'")]
+                if switch:
+                    live = [k_ for k_ in live if k_ != switch[1]] + [switch[1] if ri < switch[0] else switch[1] + "'"]
+                key = rng.choice([k_ for k_ in live if k_ != last] or [last]) if rng.random() < 0.85 else rng.choice(live)
                 last = key
                 _, backend, spec = by_key[key]
                 for _try in range(30):
@@ -371,7 +395,8 @@ def explore_histories(ctx, tier, search=False):
                     by_key[key][1], "valid" if valid else "faulty", G.ext_of(path), verdict),
                     sample={"history": hi, "backend": by_key[key][1], "path": path, "query": q})
             kept = [(r, i) for r, i in zip(reqs, impl) if i is not None]
-            ctx.tags["history:backends=%s" % "+".join(sorted(h[1] for h in handlers))] += 1
+            ctx.tags["history:backends=%s%s" % ("+".join(sorted(h[1] for h in handlers if not h[0].endswith("'"))),
+                                                  " (one replaced while running)" if switch else "")] += 1
             line = "h-proc (%s) (%s)" % (" ".join("(%s %s)" % (G.hx(h[0]), G.ds_sexp(h[2])) for h in handlers),
                                          " ".join("(%s %s %s)" % (G.hx(r[0]), G.hx(r[1]), G.hx(r[2])) for r, _ in kept))
             lines.append((line, [i for _, i in kept], {"history": hi, "handlers": [[h[0], h[1], G.ds_sexp(h[2])] for h in handlers],
@@ -379,6 +404,12 @@ def explore_histories(ctx, tier, search=False):
     finally:
         shutil.rmtree(directory, ignore_errors=True)
         G.fresh_pydap()
+    hist_tags = {k: v for k, v in ctx.tags.items() if k.startswith("history:")}
+    ctx.notes.append("histories%s: %d histories, %d requests; per history: %s; per request (backend|valid|ext|verdict): %s" % (
+        " (search)" if search else "", len(lines), sum(len(l[1]) for l in lines),
+        ", ".join("%s: %d" % (k[len("history:backends="):], v) for k, v in sorted(hist_tags.items()) if k.startswith("history:backends=")),
+        ", ".join("%s: %d" % (k[len("history:"):], v) for k, v in sorted(hist_tags.items(), key=lambda kv: -kv[1])
+                  if not k.startswith("history:backends="))[:1500]))
     outs = common.run_driver([l[0] for l in lines])
     adj = []
     for (line, impl, meta), mod in zip(lines, outs):
